@@ -27,6 +27,7 @@ type Event struct {
 	Env    []string
 	Args   []string
 	Dir    string
+	At     sched.Stamp
 }
 
 // Proc is a simulated process.
@@ -82,12 +83,19 @@ func K() *Kernel {
 func (k *Kernel) log(ev Event) {
 	ev.Step = sched.StepNo()
 	ev.TimeNs = sched.NowNs()
+	ev.At = sched.StampNow()
 	k.Log = append(k.Log, ev)
 	sched.Record(fmt.Sprintf("k:%s:%d:%d:%d", ev.Kind, ev.Pid, ev.Sig, ev.Code))
 }
 
 // Register binds a program to an executable path.
 func (k *Kernel) Register(path string, p *Program) { k.Programs[path] = p }
+
+// Live reports whether the process is alive (a visible read of the process object).
+func (p *Proc) Live() bool {
+	sched.Observe(&p.obj)
+	return p.Alive
+}
 
 // Exit terminates the process with an exit code (called by its own script).
 func (p *Proc) Exit(code int) {
